@@ -281,7 +281,7 @@ fn on_demand(shared: &SharedReport, th: bool, a: &Args) {
 
 fn http(port: u16, method: &str, path: &str) -> Option<(u16, String)> {
     let mut s = TcpStream::connect(("127.0.0.1", port)).ok()?;
-    s.set_read_timeout(Some(Duration::from_secs(10))).ok()?;
+    s.set_read_timeout(Some(Duration::from_secs(30))).ok()?;
     let req = format!("{method} {path} HTTP/1.1\r\nHost: localhost\r\nConnection: close\r\nContent-Length: 0\r\n\r\n");
     s.write_all(req.as_bytes()).ok()?;
     let mut buf = Vec::new();
